@@ -94,7 +94,7 @@ def spec_for(prop: str) -> dict[str, Any]:
 # --------------------------------------------------------------------------- generation
 
 HAZARDS_C05: list[str] = []
-HAZARDS_C06 = ["desc_merge", "desc_foreign_ddl"]
+HAZARDS_C06 = ["desc_foreign_ddl"]
 
 
 def _rows(rng: Any, n: int) -> list[dict[str, Any]]:
@@ -258,7 +258,7 @@ def _nonquery(rng: Any, hz: dict[str, bool], in_txn: bool = False, any_txn: bool
             {"sql": f"USE SCHEMA {DB}.{SC}", "cols": ["status"], "kind": "use"},
             {"sql": f"TRUNCATE TABLE {DB}.{SC}.SIDE", "cols": ["status"], "kind": "truncate"},
         ]
-    if hz["desc_merge"]:
+    if True:
         pool.append({"sql": f"MERGE INTO {DB}.{SC}.SIDE USING (SELECT {rng.randint(1, 99)} AS X) src ON SIDE.X = src.X WHEN NOT MATCHED THEN INSERT (X) VALUES (src.X)", "cols": None, "kind": "merge"})
     if True:
         pool.append({"sql": "SELECT RANDOM(42) AS R", "cols": ["R"], "kind": "random"})
